@@ -43,7 +43,7 @@ def is_frame(v, *names):
     return isinstance(v, Obj) and v.cls_name in names
 
 
-def confined_writers(ctx, attr, visited, init_names, label):
+def confined_writers(ctx, attr, visited, init_names, label, props=None):
     """Every function writing ``.attr`` is either an initialiser or was explored (inlined) by the rules that
     decide the attribute's behaviour; every other caller of such a helper is explored as well."""
     ws = index(ctx.repo).writers(attr)
@@ -56,7 +56,7 @@ def confined_writers(ctx, attr, visited, init_names, label):
         else:
             ctx.violation(f"{attr}:writer:{short}", f"'{attr}' is written ({kind}) in {short}, which is outside the "
                           f"functions whose behaviour {label} decides (explored: "
-                          f"{sorted(q.split(':')[1] for q in visited)})", func=f, node=n, construct=text(n)[:100])
+                          f"{sorted(q.split(':')[1] for q in visited)})", func=f, node=n, construct=text(n)[:100], props=props)
 
 
 # =============================================================================== C04
@@ -221,7 +221,8 @@ def dispatch_classes(ctx):
 def r04_3(ctx):
     """RSTACK restarts numbering: on every path of rstack_frame_received both frame counters are set to zero
     before the upward notification, whose argument is the frame's own reset code, and the link state becomes
-    CONNECTED."""
+    CONNECTED.  Also as a history on one object: (reset requested or not) -> DATA frames 7..0 arrive, one of which is accepted -> RSTACK: both counters
+    are 0 afterwards, from every expected number."""
     anchor_attrs(ctx, "AshProtocol", "_rx_seq", "_tx_seq", "_ncp_state")
     repo = ctx.repo
     f = repo.func(f"{ASH}:AshProtocol.rstack_frame_received")
@@ -263,6 +264,34 @@ def r04_3(ctx):
                     ctx.ok(1, key)
     ctx.run.shared.setdefault("rx_seq_visited", set()).update(px.visited)
     ctx.run.shared.setdefault("tx_seq_visited", set()).update(px.visited)
+    # the handshake as a history on one object: the host asks for a reset, the NCP's frames that were already on the wire still
+    # arrive (one of them is the expected one and is accepted), then the RSTACK arrives - numbering restarts at zero *then*, whatever
+    # was done when the request was written (counters zeroed at the request are advanced again by the frames in between)
+    fr_rx = repo.func(f"{ASH}:AshProtocol.frame_received")
+    sr = repo.func(f"{ASH}:AshProtocol.send_reset")
+    pxh = PX(repo, inline=inline_ash(stop=("_write_frame", "_cancel_pending_data_frames", "_change_ack_timeout")))
+    pxh.inline_root = fr_rx
+    for rx0 in range(8):
+        for requested in (True, False):
+            def entry():
+                me = self_obj(cls, {"_rx_seq": rx0, "_tx_seq": (rx0 + 3) % 8, "_ncp_state": ns["CONNECTED"], "_pending_data_frames": {}})
+                pxh.top_frame = None
+                if requested:
+                    pxh.call_function(sr, me, [], {}, None)
+                for frm in reversed(range(8)):  # descending: exactly one of them is the expected one, whatever the expected number is
+                    pxh.call_function(fr_rx, me, [frame_obj(ctx, "DataFrame", frm_num=frm, re_tx=0, ack_num=0, ezsp_frame=Sym(f"payload{frm}"))], {}, None)
+                pxh.emit("mark", "rstack")
+                pxh.call_function(fr_rx, me, [frame_obj(ctx, "RStackFrame", reset_code=Sym("code"), version=2)], {}, None)
+                return (me.fields.get("_rx_seq"), me.fields.get("_tx_seq"))
+
+            paths = pxh._run(entry)
+            ctx.paths += len(paths)
+            for p in paths:
+                key = f"handshake:{'requested' if requested else 'unsolicited'}"
+                ok = p.terminal == "return" and p.value == (0, 0)
+                ctx.require(ok, f"rstack_frame_received:{key}", f"expected number {rx0} before; reset {'requested, ' if requested else 'not requested, '}"
+                            f"DATA frames 7..0 arrive (one is accepted), then the RSTACK: counters (rx, tx) end as {p.value!r} ({p.terminal}); both must be 0 after the RSTACK",
+                            func=f, trace=p.trace(30))
 
 
 @rule("R04.4", ["C04", "C01", "C11"], "T-WMW", floor=3)
